@@ -697,6 +697,29 @@ pub fn gen(g: &mut Gen) {
         }
     }
 
+    // --- quick tier: a small sample of size 6 (the full sweep of size 6 is in the thorough tier) ---
+    if !thorough {
+        for round in 0..24 {
+            let n = 6;
+            let mut perm: Vec<usize> = (0..n).collect();
+            if round > 0 {
+                e.g.rng.shuffle(&mut perm);
+            }
+            let mut ints = vec![0i128; n * n];
+            for (i, &p) in perm.iter().enumerate() {
+                ints[i * n + p] = if round % 2 == 0 { 1 } else { (i as i128) + 2 };
+            }
+            if round % 4 == 3 {
+                // fill the rest sparsely so that several Leibniz terms contribute
+                for _ in 0..6 {
+                    let at = e.g.rng.below(n * n);
+                    ints[at] += small_int(e.g, 3);
+                }
+            }
+            e.int_case(if round % 2 == 0 { "rat" } else { "fp" }, n, n, &ints, "size6_sample", false);
+        }
+    }
+
     // --- exhaustive 2x2 over {-1,0,1,2}, both element types, all six questions ---
     let vals2 = [-1i128, 0, 1, 2];
     for code in 0..256usize {
